@@ -1,9 +1,8 @@
 //! C02.4 / C12.4 / C16.2 — the real Mixer: sub-tracks + send tracks + main track.
-// @deps info,parameter,track/send,track/sub
+// @deps info,parameter,track/send,track/sub,track
 use super::*;
 use crate::kani_support::*;
-use crate::track::sub::kani_proofs::{mk_track, forget_rest};
-use crate::track::send::kani_proofs::mk_send_track;
+use crate::track::kani_proofs::{mk_track, forget_rest, mk_send_track};
 use crate::track::{MainTrackBuilder, SendTrackId};
 use crate::Decibels;
 
@@ -108,4 +107,27 @@ fn c16_2a_sample_rate_fan_out() {
     }
     kani::cover!(true);
     core::mem::forget(mixer); core::mem::forget(sub_ctl); core::mem::forget(send_ctl); core::mem::forget(main_handle);
+}
+
+// @ob id=C02.4b,C11.4a strength=bounded tier=quick timeout=2400 bound="ibs 2, a callback remainder of 1 frame; no sub-tracks; one send track with one probe effect whose input buffer is pre-loaded with two grid frames" fn=backend/resources/mixer.rs::Mixer::process
+// @req a short (remainder) chunk: out.len() = 1 < internal buffer size
+// @ens the send track's effects are asked for exactly out.len() frames (never for frames that are not rendered); out[0] is the effect of the first input frame; the mixer's scratch buffer is all zero on return
+#[kani::proof]
+#[kani::unwind(4)]
+#[kani::stub(f32::powf, powf32_model)]
+fn c02_4b_send_tracks_get_chunk_sized_slices() {
+    let (mut mixer, sub_ctl, send_ctl, main_handle) = Mixer::new(0, 1, 48000, 2, MainTrackBuilder::new().sound_capacity(0));
+    let mut send = mk_send_track(2, Decibels(0.0), vec![Box::new(ProbeEffect { id: 0, gain: 0.5, add: 0.25 })]);
+    let inp = [grid_frame(), grid_frame()];
+    send.add_input(&inp, Decibels(0.0));
+    let _ = mixer.send_tracks.resources.insert(send);
+    let (clocks, modulators, listeners) = storages();
+    let mut out = [Frame::ZERO; 1];
+    mixer.process(&mut out, 1.0 / 48000.0, &clocks, &modulators, &listeners);
+    unsafe { assert!(PE_CALLS[0] == 1 && PE_FRAMES[0] == 1, "C02.4b: every effect is asked for every output frame exactly once, in slices no longer than the chunk"); }
+    assert!(out[0].left == inp[0].left * 0.5 + 0.25 && out[0].right == inp[0].right * 0.5, "C02.4b: the send path reaches the output");
+    assert!(mixer.temp_buffer[0].left == 0.0 && mixer.temp_buffer[1].left == 0.0 && mixer.temp_buffer[0].right == 0.0 && mixer.temp_buffer[1].right == 0.0, "C02.4b: nothing is left in the mixer's scratch buffer");
+    kani::cover!(inp[0].left != 0.0);
+    core::mem::forget(mixer); core::mem::forget(sub_ctl); core::mem::forget(send_ctl); core::mem::forget(main_handle);
+    core::mem::forget(clocks); core::mem::forget(modulators); core::mem::forget(listeners);
 }
